@@ -52,6 +52,7 @@ def run(ctx):
     lib_kind2.keep_rows_atomic(ctx, P)
     lib_kind2.id_array_first_use(ctx, P)
     lib_kind2.alloc_size_bounded(ctx, P)
+    lib_kind2.array_conversion_source(ctx, P)
     lib_kind3.error_codes(ctx, P)
     lib_kind.dict_atomic(ctx, P)
     lib_stats.early_exits(ctx, P)
